@@ -133,6 +133,35 @@ def check_triples(product, st):
     st.sample({'product': product, 'triples_over': n, 'example': ms[:4]}, cap=8)
 
 
+# ---- one Software object asked several times: an answer does not depend on what the object was asked before (a comparison against something
+# that is not a dotted number - a patch-suffixed string, an empty string, rubbish - takes the fallback path inside compare_version)
+def check_asked_before(st):
+    vs = ['0.9', '0.10.6', '1.2', '1.10', '7.4', '9', '9.9', '9.10', '10.0', '99.1', '100.0', '2016.74', '2016.100', '2020.81']
+    odd = ['9p1', '', 'garbage', '1.x', '9.9p1', ' 7.4', '7.4 ', '٣.١', None]
+    for product in PRODUCTS:
+        for a in vs:
+            fresh = mk(product, a)
+            if fresh is None:
+                continue
+            want = {b: sign(mk(product, a).compare_version(b)) for b in vs}
+            for first in odd:
+                obj = mk(product, a)
+                try:
+                    obj.compare_version(first)
+                except Exception as e:      # noqa
+                    st.violation('compare-version-raises:%s' % type(e).__name__, {'product': product, 'version': a, 'other': first})
+                    continue
+                for b in vs:
+                    got = sign(obj.compare_version(b))
+                    st.evaluations += 1
+                    st.transitions += 1
+                    if got != want[b]:
+                        st.violation('order-depends-on-earlier-comparisons:%s' % product, {'product': product, 'version': a, 'asked_first': first, 'then': b, 'answer': got, 'fresh_object_answers': want[b]})
+                st.states.add(hash(('asked-before', product, a, first)))
+                st.nontrivial.add(hash(('asked-before', product, a, first)))
+    st.sample({'asked_before': {'versions': len(vs), 'odd_operands': [str(o) for o in odd]}})
+
+
 # ---- end-to-end: availability of an algorithm in an identified server version
 def first_appeared():
     """{product: {version: (cat, name)}} for clean algorithms (recommendable for addition)."""
@@ -420,6 +449,7 @@ def run(tier, seed):
             for lo in range(0, len(vs), step):
                 tasks.append((product, vs, lo, min(lo + step, len(vs))))
     par.pmap(work_pairs, tasks, stats=st, chunk=2)
+    check_asked_before(st)
     for product in PRODUCTS:
         check_triples(product, st)
     par.pmap(work_cli, cli_tasks(), stats=st)
